@@ -17,6 +17,8 @@ pub struct Msgs {
     /// messages that are written into the send guard as raw bytes (as_mut_bytes + assume_init) instead
     /// of being emplaced: the full image (the wire image in `images` is its first size() bytes)
     pub raw: Vec<Option<Vec<u8>>>,
+    /// messages equal to the documented default that are initialised with the guard's default_in_place()
+    pub use_default: Vec<bool>,
     pub images: Vec<Image>,
     /// absolute start of each message in the stream (+ total length at the end)
     pub starts: Vec<usize>,
@@ -138,12 +140,14 @@ pub fn gen_msgs_ext(ty: &Ty, t: &mut Tape, max: usize, limit: usize, shrink: boo
     let mut values = vec![];
     let mut images = vec![];
     let mut raw = vec![];
+    let mut use_default = vec![];
     let mut starts = vec![0];
     let mut largest = model::min_size(ty);
     let mut has_padding = false;
     for _ in 0..n {
         let mut fuel = Fuel { elems: 40, max_len: 10, overlong: false };
         let v = gen_value(ty, t, &mut fuel);
+        let v = if shrink && ty.has_default() && t.chance(1, 8) { default_value(ty) } else { v };
         let size = model::size_of(ty, &v);
         if size > limit {
             continue;
@@ -173,6 +177,7 @@ pub fn gen_msgs_ext(ty: &Ty, t: &mut Tape, max: usize, limit: usize, shrink: boo
                             post_ops.push(vec![]);
                             values.push(v);
                             raw.push(Some(img.bytes.clone()));
+                            use_default.push(false);
                             images.push(Image {
                                 bytes: img.bytes[..wire].to_vec(),
                                 mask: img.mask[..wire].to_vec(),
@@ -199,11 +204,13 @@ pub fn gen_msgs_ext(ty: &Ty, t: &mut Tape, max: usize, limit: usize, shrink: boo
         values.push(fin);
         images.push(img);
         raw.push(None);
+        use_default.push(ty.has_default() && *initial.last().unwrap() == default_value(ty));
     }
     Msgs {
         initial,
         post_ops,
         raw,
+        use_default,
         values,
         images,
         starts,
@@ -282,10 +289,12 @@ impl Msgs {
     pub fn install_post_ops(&self) {
         crate::io_glue::POST_OPS.with(|p| *p.borrow_mut() = self.post_ops.clone());
         crate::io_glue::RAW_IMAGES.with(|p| *p.borrow_mut() = self.raw.clone());
+        crate::io_glue::USE_DEFAULT.with(|p| *p.borrow_mut() = self.use_default.clone());
     }
     pub fn clear_post_ops() {
         crate::io_glue::POST_OPS.with(|p| p.borrow_mut().clear());
         crate::io_glue::RAW_IMAGES.with(|p| p.borrow_mut().clear());
+        crate::io_glue::USE_DEFAULT.with(|p| p.borrow_mut().clear());
     }
     /// A clean byte stream of the messages (padding zero).
     pub fn stream(&self) -> Vec<u8> {
@@ -423,4 +432,73 @@ pub fn wouts(chunks: &[usize]) -> Vec<WOut> {
 }
 pub fn routs(chunks: &[usize]) -> Vec<ROut> {
     chunks.iter().map(|c| ROut::Deliver(*c)).collect()
+}
+
+/// A message that does not fit the send buffer: `new_in_place` on the send guard must refuse it
+/// (nothing reaches the sink) and the sender stays usable. Sends [small, big, small] through a sender
+/// whose buffer holds `small` but not `big`. Returns Ok(false) if the shape has no such pair.
+pub fn oversize_probe(sh: &dyn DynShape, msgs: &Msgs, asynchronous: bool) -> Result<bool, (String, String)> {
+    use crate::run::lib;
+    let ty = sh.ty();
+    let name = ty.short();
+    let a = model::align(ty);
+    let ms = model::min_size(ty);
+    // the guard's default_in_place() in a buffer below MIN_SIZE
+    let cap0 = model::round_down(ms.saturating_sub(1), a);
+    if ty.has_default() && cap0 > 0 {
+        let seq = vec![default_value(ty)];
+        let mut sink = ScriptSink::new(vec![], WOut::Accept(usize::MAX), 64);
+        crate::io_glue::IO_CAPACITY.with(|c| c.set(Some(cap0)));
+        crate::io_glue::USE_DEFAULT.with(|p| *p.borrow_mut() = vec![true]);
+        let rep = if asynchronous {
+            lib(|| sh.io_async_send(&seq, &[], cap0, &mut sink, 4096, true))
+        } else {
+            lib(|| sh.io_send_blocking(&seq, &[], cap0, &mut sink, true))
+        };
+        crate::io_glue::IO_CAPACITY.with(|c| c.set(None));
+        crate::io_glue::USE_DEFAULT.with(|p| p.borrow_mut().clear());
+        let what = format!("[{} sender with a {}-byte buffer (MIN_SIZE {}), default_in_place() on the send guard]", if asynchronous { "async" } else { "blocking" }, cap0, ms);
+        let rep = rep.map_err(|p| ("panic".to_string(), format!("{}: sender panicked: {} {}", name, p, what)))?;
+        if !(rep.results.len() == 1 && matches!(&rep.results[0], SendRes::Emplace(e) if e.kind == "InsufficientSize")) || !sink.data.is_empty() {
+            return Err(("oversize-message".into(), format!("{}: expected [Emplace(InsufficientSize)] and an empty sink but got {:?}, {} bytes in the sink {}", name, rep.results, sink.data.len(), what)));
+        }
+    }
+    let small = super::common::minimal_values(ty).remove(0);
+    let small_size = model::size_of(ty, &small);
+    let Some(big) = msgs.values.iter().max_by_key(|v| model::size_of(ty, v)) else { return Ok(false) };
+    let big_size = model::size_of(ty, big);
+    if big_size < a || model::round_down(big_size - 1, a) < small_size.max(ms) {
+        return Ok(false);
+    }
+    let cap = model::round_down(big_size - 1, a);
+    let Ok(small_img) = model::encode(ty, &small, small_size, 0, &mut Canonical) else { return Ok(false) };
+    let seq = vec![small.clone(), big.clone(), small.clone()];
+    let mut sink = ScriptSink::new(vec![], WOut::Accept(usize::MAX), 64 + 4 * small_size);
+    crate::io_glue::IO_CAPACITY.with(|c| c.set(Some(cap)));
+    let rep = if asynchronous {
+        lib(|| sh.io_async_send(&seq, &[], cap, &mut sink, 4096, true))
+    } else {
+        lib(|| sh.io_send_blocking(&seq, &[], cap, &mut sink, true))
+    };
+    crate::io_glue::IO_CAPACITY.with(|c| c.set(None));
+    let what = format!("[{} sender with a {}-byte buffer, messages small = {} ({} bytes), big = {} ({} bytes), small]", if asynchronous { "async" } else { "blocking" }, cap, small.show(), small_size, big.show(), big_size);
+    let rep = rep.map_err(|p| ("panic".to_string(), format!("{}: sender panicked: {} {}", name, p, what)))?;
+    let ok = rep.results.len() == 3
+        && rep.results[0] == SendRes::Sent
+        && matches!(&rep.results[1], SendRes::Emplace(e) if e.kind == "InsufficientSize")
+        && rep.results[2] == SendRes::Sent;
+    if !ok {
+        return Err(("oversize-message".into(), format!("{}: expected [Sent, Emplace(InsufficientSize), Sent] but got {:?} {}", name, rep.results, what)));
+    }
+    if sink.data.len() != 2 * small_size {
+        return Err(("oversize-message".into(), format!("{}: the sink holds {} bytes, the two messages that fit occupy {} {}", name, sink.data.len(), 2 * small_size, what)));
+    }
+    for rep_i in 0..2 {
+        for k in 0..small_size {
+            if small_img.mask[k] && sink.data[rep_i * small_size + k] != small_img.bytes[k] {
+                return Err(("oversize-message".into(), format!("{}: byte {} of the sink is not the encoding of the small message {}", name, rep_i * small_size + k, what)));
+            }
+        }
+    }
+    Ok(true)
 }
